@@ -203,7 +203,7 @@ def run(ctx):
         po.update({"tmax": tm, "sleep_ms": sl, "calls": ctx.rng.choice([1, 2]), "hb_two_writes": False,
                    "continue": 0 if oname in ("bs+ode",) else 3})
         jobs.append(("server-opt:" + oname, libdir, "server", po, 240))
-    pt = {"seed": ctx.rng.randint(1, 10 ** 6), "N": ctx.scale(12000, 20000), "clients": 2, "seconds": ctx.scale(3, 12)}
+    pt = {"seed": ctx.rng.randint(1, 10 ** 6), "N": ctx.scale(12000, 20000), "clients": 2, "seconds": ctx.scale(2, 12)}
     jobs.append(("torn:eft0", libdir, "torn", dict(pt, eft=0), 400))      # synchronize after the loop (inside the mutex since /repo 8c50374)
     jobs.append(("torn:eft1", libdir, "torn", dict(pt, eft=1, seed=pt["seed"] + 7), 400))   # synchronize inside reb_check_exit (inside the mutex since /repo 8306d1e)
     # a user heartbeat that also writes when reb_simulation_integrate calls it in its prologue (outside the mutex)
@@ -264,17 +264,28 @@ def run(ctx):
                   "safe_mode": 1, "corrector": ctx.rng.choice([0, 3]), "tmax": round(cost * ctx.rng.uniform(0.8, 1.2), 2)} for _ in range(4)]
         groups.append({"name": integ, "specs": specs, "rounds": ctx.scale(2, 6)})
     jobs.append(("hammer", libdir, "hammer", {"groups": groups}, 400))
+    # the server is started from a second thread while integrate() is already running
+    for integ in (["leapfrog", "whfast"] if not ctx.thorough else ["leapfrog", "whfast", "mercurius", "saba"]):
+        jobs.append(("latestart:" + integ, libdir, "latestart", {"seed": ctx.rng.randint(1, 10 ** 6), "spec": {"integrator": integ, "n": ctx.rng.randint(2, 4),
+                     "seed": ctx.rng.randint(1, 10 ** 6), "dt": 0.01, "safe_mode": 1}, "tmax": 0.6, "sleep_ms": ctx.rng.choice([25, 40]),
+                     "start_after_steps": ctx.rng.randint(4, 15), "clients": 2, "continue": 4}, 240))
+    # histories in which the particle number changes: remove -> observe (save / copy / serve) -> add
+    for integ in ["ias15", ctx.rng.choice(["whfast", "leapfrog", "mercurius", "bs", "trace"])] + (["whfast", "leapfrog", "mercurius", "saba"] if ctx.thorough else []):
+        n = ctx.rng.randint(3, 5)
+        jobs.append(("history:" + integ, libdir, "history", {"seed": ctx.rng.randint(1, 10 ** 6), "spec": {"integrator": integ, "n": n, "seed": ctx.rng.randint(1, 10 ** 6),
+                     "dt": 0.01, "safe_mode": 1}, "t1": 3.0, "t2": 7.0, "remove_index": ctx.rng.randint(1, n), "steps_between": ctx.rng.choice([0, 3]),
+                     "add_m": 1e-4, "add_a": round(1.0 + 0.45 * n + 0.7, 3)}, 240))
     jobs.append(("compress", libdir, "compress", {"seed": ctx.rng.randint(1, 10 ** 6), "cases": ctx.scale(120, 600)}, 240))
     jobs.append(("teardown", libdir, "teardown", {"seed": ctx.rng.randint(1, 10 ** 6), "spec": {"integrator": "whfast", "n": 3, "seed": ctx.rng.randint(1, 10 ** 6),
                  "dt": 0.01}, "tmax": 2.0, "iterations": ctx.scale(12, 60), "clients": 3}, 300))
-    jobs.append(("fdclose", libdir, "fdclose", {"seed": ctx.rng.randint(1, 10 ** 6), "N": 3000, "clients": 3, "seconds": ctx.scale(4, 12)}, 200))
+    jobs.append(("fdclose", libdir, "fdclose", {"seed": ctx.rng.randint(1, 10 ** 6), "N": 3000, "clients": 3, "seconds": ctx.scale(3, 12)}, 200))
     if libavx:
         pw = {"seed": ctx.rng.randint(1, 10 ** 6), "steps": ctx.rng.randint(10, 40),
               "a": [1.0, 0], "b": [round(ctx.rng.uniform(1.3, 2.5), 3), 0], "thread_steps": ctx.scale(20000, 100000)}
         jobs.append(("w512:mass", libavx, "w512", pw, 120))
         pw2 = dict(pw, a=[1.0, 1], b=[1.0, 0], seed=pw["seed"] + 1, thread_steps=0)
         jobs.append(("w512:gr", libavx, "w512", pw2, 120))
-    with ThreadPoolExecutor(max_workers=int(os.environ.get("VERIF_C19_PAR", "6"))) as ex:
+    with ThreadPoolExecutor(max_workers=int(os.environ.get("VERIF_C19_PAR", "8"))) as ex:
         def run_job(j):
             res, diag = drive(j[1], j[2], j[3], j[4])
             if j[2] == "keyboard" and res is not None and not res.get("conclusive"):
@@ -351,6 +362,38 @@ def run(ctx):
                 m = res["mismatch"][0]
                 ctx.violation("concurrent:" + m["spec"]["integrator"], dict(replay, first_mismatch=m), True,
                               "simulation run concurrently with others ends in different bits than when run alone")
+        elif mode == "latestart":
+            ctx.evaluations += res["served"]
+            served_total += res["served"]
+            ctx.case(key=(name, res["served"] > 0))
+            ctx.extra.setdefault("latestart", []).append({k: res.get(k) for k in ("served", "start_steps_done", "mid_step_in_start_step", "mid_step_later",
+                                                                                  "continued", "continuation_mismatch", "unparsable", "err")})
+            bad = []
+            if res["mid_step_later"]: bad.append("%d snapshots served after the step in which the server came up are mid-step states, e.g. %s" % (res["mid_step_later"], res["examples"][:1]))
+            if res["unparsable"]: bad.append("%d bodies do not parse" % res["unparsable"])
+            if res["continuation_mismatch"]: bad.append("%d continued snapshots do not reach the reference end state" % res["continuation_mismatch"])
+            if not res["trajectory_equal"]: bad.append("trajectory differs from the run without a server")
+            ctx.obligation("validation(real threads): %s — server started from a second thread during integrate(): %d snapshots, all later ones are "
+                           "boundary states, %d continued bit-for-bit" % (name, res["served"], res["continued"]), not bad, "; ".join(bad))
+            if bad:
+                ctx.violation("server:late-start", dict(replay, result=res), True, "; ".join(bad)[:400])
+            if res["mid_step_in_start_step"]:
+                ctx.violation("server:started-during-step", dict(replay, result=res), True,
+                              "snapshots served during the very step in which reb_simulation_start_server was called from another thread are mid-step states "
+                              "(that step began before the server existed and runs without the mutex)")
+        elif mode == "history":
+            ctx.evaluations += 7
+            ctx.case(key=(name, params["steps_between"] > 0))
+            ctx.extra.setdefault("history", []).append({"scenario": name, "agree": res["agree"]})
+            if params["spec"]["integrator"] == "ias15":
+                if not res["all_agree"]:
+                    ctx.violation("ias15:stale_arrays_after_remove_then_add", dict(replay, result=res), True,
+                                  "IAS15: remove a particle -> save / copy / serve -> add a particle: the later trajectory differs from the unobserved run")
+            else:
+                ctx.obligation("validation: %s — remove -> observe (save / copy / serve) -> add: original, restored, copy and served snapshot all equal "
+                               "the unobserved run" % name, res["all_agree"], json.dumps(res))
+                if not res["all_agree"]:
+                    ctx.violation("history:" + params["spec"]["integrator"], dict(replay, result=res), True, "observation changes a remove/add history")
         elif mode == "compress":
             cases = res["cases"]
             body = ("From Coq Require Import List Arith.\nFrom RV Require Import C19.Conc.\nImport ListNotations.\n"
